@@ -52,6 +52,17 @@ func runC06(r *core.Run) {
 					if vs == "round" && op != "Add" && op != "Sub" && op != "Mul" && op != "Div" {
 						continue
 					}
+					// x op x: the same tensor as both operands
+					if vs == "id" || vs == "edge" {
+						for _, la := range atlas.L5 {
+							for _, api := range []string{"func", "method"} {
+								if api == "method" && methTT[op] == nil {
+									continue
+								}
+								ewRunCase(r, "C06", ewCase{kind: "arith", op: op, form: "TT", mode: "safe", api: api, d: d, shape: shape, layA: la, layB: "=a", vs: vs, strict: true}, nil)
+							}
+						}
+					}
 					for _, la := range atlas.L5 {
 						for _, lb := range atlas.L5 {
 							full := vs == "id" || !quick || la == lb || la == "C" || lb == "C"
